@@ -77,10 +77,16 @@ class VfsRequest(request.SmartServerRequest):
     def translate_client_path(self, relpath):
         """Translate a client-side relative path to a server-side path.
 
-        VFS requests are made with escaped paths so the escaping done in
-        SmartServerRequest.translate_client_path leads to double escaping.
-        Remove it here -- the fact that the result is still escaped means
-        that the str() will not fail on valid input.
+        VFS requests are made with escaped paths.  The path is unescaped
+        *before* it is handed to SmartServerRequest.translate_client_path, so
+        that the join against the root (which refuses to go above it) sees
+        the same separators and ".." segments the backing transport will
+        see after its own unescaping.  Unescaping afterwards would let an
+        escaped separator (e.g. "..%2F") through as part of an ordinary
+        path segment, and out of the served directory.
+
+        The result is escaped again (exactly once) by
+        SmartServerRequest.translate_client_path.
 
         Args:
             relpath: The relative path from the client.
@@ -88,8 +94,8 @@ class VfsRequest(request.SmartServerRequest):
         Returns:
             A string path suitable for use on the server side.
         """
-        x = request.SmartServerRequest.translate_client_path(self, relpath)
-        return str(urlutils.unescape(x))
+        relpath = urlutils.unescape(relpath.decode("utf-8")).encode("utf-8")
+        return request.SmartServerRequest.translate_client_path(self, relpath)
 
 
 class HasRequest(VfsRequest):
